@@ -15,7 +15,7 @@ CHECK = {
     "entries": [
         {"fn": P + "vC41_init", "replay": "model-only"},
         {"fn": P + "vC41_step", "replay": "model-only", "cases": {"kind": [0, 1, 2, 3, 4, 5, 6, 7, 8]},
-         "cover_optional": ("get-tombstoned", "expired", "kept", "tombstoned"),
+         "cover_optional": ("get-tombstoned", "expired", "kept", "tombstoned", "deleted-locally", "tombstone-received", "batch-tombstone-received"),
          # unreachable is the point for the first one: outside the prune tick no tombstone ever disappears
          "may_be_unreachable": ("a tombstone is removed only by the prune tick, and only once now - deletedAt > TombstoneTTL",
                                 "the prune tick keeps every tombstone that has not expired", "Get of a tombstoned key exposes no value")},
@@ -27,7 +27,7 @@ CHECK = {
                    "handleUpdate, handleGet (incl. coordinatedRead, targetCount, selectPeers), handleDelete (incl. coordinatedTombstone), handleDelta, handleProtoDelta/decodeDelta, handleProtoTombstone, handleFullState, handleIncomingBatch, handlePrune, plus trackKey, publishDelta/encodeDelta, coordinatedWrite, notifyChanged and the real codec.DecodeCRDTKey/EncodeCRDTKey and crdt.Config. "
                    "Pre-state: each of the keys k1,k2,k3 is absent, live (arbitrary value/version) or tombstoned (arbitrary deletedAt, local or remote deleter, key type remembered or not); TombstoneTTL is any positive duration; cross-DC buffering on or off. "
                    "Messages: any key of the universe, nil / unspecified / out-of-range wire keys, any coordination level (none, majority, all), deltas from this or another node, batches from this or another data centre with 0..1 delta and 0..1 tombstone, full states with 0..2 entries. "
-                   "Asserted after the step: Inv; a Get of a tombstoned key answers without a value; a tombstone disappears only in the prune tick and only if now - deletedAt > TombstoneTTL, and the prune tick keeps every tombstone that has not expired. vC41_init: Inv holds for a freshly started replicator (PreStart creates an empty tombstone map, so a snapshot restore cannot violate it; restoreFromSnapshot itself needs a bbolt store and is not encoded). "
+                   "Asserted after the step: Inv; after a local Delete, a received peer tombstone or a cross-DC batch tombstone for k (decodable key, not our own echo / own DC) the replica holds a tombstone for k and no value - from any pre-state including k never seen; a Get of a tombstoned key answers without a value; a tombstone disappears only in the prune tick and only if now - deletedAt > TombstoneTTL, and the prune tick keeps every tombstone that has not expired. vC41_init: Inv holds for a freshly started replicator (PreStart creates an empty tombstone map, so a snapshot restore cannot violate it; restoreFromSnapshot itself needs a bbolt store and is not encoded). "
                    "Substituted (environment): time.Now (harness clock, arbitrary non-decreasing), (*ReceiveContext).Response (recorder) and Tell (no-op), pathToAddress, ddata.DecodeCRDT / ddata.EncodeCRDT (opaque value codec: any value or an error), cluster.Peers (error / none / one peer), remoting RemoteLookup / RemoteAsk / RemoteTell (the peer may answer with any value for any key, i.e. it may not have applied the tombstone yet). CRDT values are an opaque harness type whose Merge is max. "
                    "One step from every Inv-state covers every interleaving of update, delete, delta, tombstone, anti-entropy and read messages on one replica; the property's cross-replica part (a replica that has received the tombstone) is exactly Inv on that replica.",
     "bounds": {"keys": "3 (k1,k2,k3), each absent / live / tombstoned", "full state entries": "0..2", "batch": "0..1 delta + 0..1 tombstone", "peers": "0..1", "clock, deletedAt": "< 2^61 ns", "ttl": "(0, 2^60) ns"},
